@@ -1046,7 +1046,7 @@ def check_ports(ctx, exe, d, n_big, n_custom, n_write):
             if reported > 12:
                 continue
             cut = ops[:bad + 1]
-            txt = "(c12-port-run/bytes '%s \"%s\" '(%s) '(%s) '(%s))" % (kind, os.path.join(pdir, "replay.bin"), " ".join(map(str, utf8(cs))),
+            txt = "(c12-port-run/bytes '%s \"%s\" '(%s) '(%s) '(%s))" % (kind, os.path.join(B.SCRATCH, "c12-port-replay.bin"), " ".join(map(str, utf8(cs))),
                                                                          " ".join(map(str, sched)), " ".join(port_op_scm(o) for o in cut))
             opn = ops[bad] if isinstance(ops[bad], str) else "s"
             name = {"r": "read-char", "p": "peek-char", "c": "char-ready?", "u": "read-u8", "l": "read-line", "d": "read-char", "s": "read-string"}[opn]
@@ -1056,7 +1056,6 @@ def check_ports(ctx, exe, d, n_big, n_custom, n_write):
             else:
                 ctx.violation("port:%s:%s:%s" % (kind, name, port_where(cs, hot, ops, bad)), input=txt, step=bad, expected=exp[bad],
                               observed=(got[bad] if bad < len(got) else "missing"), model=(mf[bad] if bad < len(mf) else None),
-                              code_points_around=hx(cs[max(0, PortSpec(cs).pos):][:0]) or None,
                               replay="./check C12 --replay <this file>   # or: chibi-scheme with vlib/scm.py PRELUDE + harness/c12_hist.scm, then " + txt[:200] + " ...")
     if cases:
         ctx.sample(dict(kind="port", request=exprs[0][:300], impl=str(res[0])[:300], model=mo[0][:300]))
@@ -1064,7 +1063,7 @@ def check_ports(ctx, exe, d, n_big, n_custom, n_write):
     # the 4096-byte output buffer in every way
     wcases = []
     for n in range(n_write):
-        w = rng_w = ctx.rng.choice([2, 3, 4])
+        w = ctx.rng.choice([2, 3, 4])
         k = ctx.rng.randrange(0, w + 1)
         m = ctx.rng.choice([1, 1, 2])
         pre = filler(ctx.rng, m * PORT_BUF - k - ctx.rng.choice([0, 0, 1]), 10 ** 9)
